@@ -156,16 +156,24 @@ func H_kq_rmdir() {
 	wt, _ := verifKqNew()
 	verifAssert(wt.Add("/d") == nil, "Add dir")
 	var want []verifKqExp
+	dirFirst := verifBool("dir-note-first") // kqueue may deliver the directory's note before its entries'
+	if dirFirst {
+		verifNodeOf2("/d").kind = nAbsent
+		verifRaise("/d", unix.NOTE_DELETE|unix.NOTE_WRITE)
+		want = append(want, verifKqExp{"/d", Remove})
+	}
 	for _, e := range [...]string{"/d/a", "/d/b"} {
-		if n := verifNodeOf(e); n != nil {
+		if n := verifNodeOf2(e); n != nil && n.kind != nAbsent {
 			n.kind = nAbsent
 			verifRaise(e, unix.NOTE_DELETE)
 			want = append(want, verifKqExp{e, Remove})
 		}
 	}
-	verifNodeOf2("/d").kind = nAbsent
-	verifRaise("/d", unix.NOTE_DELETE|unix.NOTE_WRITE)
-	want = append(want, verifKqExp{"/d", Remove})
+	if !dirFirst {
+		verifNodeOf2("/d").kind = nAbsent
+		verifRaise("/d", unix.NOTE_DELETE|unix.NOTE_WRITE)
+		want = append(want, verifKqExp{"/d", Remove})
+	}
 	got := verifCollect(wt, nil)
 	verifExpect(got, want, "rm -r of a watched directory: Remove for each watched entry and for the directory")
 	verifAssert(len(wt.WatchList()) == 0, "the removed directory is no longer listed")
